@@ -81,9 +81,9 @@ Proof.
   destruct (String.eqb m captain_id).
   - destruct (wedged S c).
     + intros [= <- <- <-]. exact I.
-    + destruct (as_crew_op S decode_src msg) as [| |op]; try discriminate.
+    + destruct (as_crew_op S decode_src msg) as [| |op0]; try discriminate.
       * intros [= <- <- <-]. eapply P_ext; [|exact I]. reflexivity.
-      * destruct (op_ordinary S op); try discriminate.
+      * set (op := strip_op S op0) in *; destruct (op_ordinary S op); try discriminate.
         intros [= <- <- <-]. apply P_do_op. exact I.
   - destruct (String.eqb m timers_id).
     + intros [= <- <- <-]. destruct (tm_shape msg); auto. eapply P_ext; [|exact I]. reflexivity.
@@ -356,9 +356,9 @@ Proof.
   destruct (String.eqb m captain_id).
   - destruct (wedged S c1) eqn:Ew; simpl.
     + repeat split; simpl; auto; congruence.
-    + destruct (as_crew_op S decode_src msg) as [| |op]; simpl; auto.
+    + destruct (as_crew_op S decode_src msg) as [| |op0]; simpl; auto.
       * repeat split; simpl; auto; congruence.
-      * destruct (op_ordinary S op); simpl; auto.
+      * set (op := strip_op S op0) in *; destruct (op_ordinary S op); simpl; auto.
         split; [|auto]. apply core_do_op. split; auto. congruence.
   - destruct (String.eqb m timers_id); simpl.
     + destruct (tm_shape msg); repeat split; simpl; auto.
